@@ -642,10 +642,11 @@ func cbGen(r *Rng, n int, do func(M) any) {
 
 func init() {
 	Register(Engine{
-		Name:    "callbacks",
-		Props:   []string{"C40"},
-		New:     func() Executor { return newCbExec() },
-		Gen:     cbGen,
-		Monitor: cbMonitor,
+		Name:       "callbacks",
+		MaxMonitor: 400000,
+		Props:      []string{"C40"},
+		New:        func() Executor { return newCbExec() },
+		Gen:        cbGen,
+		Monitor:    cbMonitor,
 	})
 }
